@@ -201,6 +201,15 @@ KA(d, flow, beta, gamma, dev) ==
 CA(d, aeromu) == LET t(sr, cr) == << BT(T(W,0,0,ROne), T(W,0,0,ROne), RNeg(aeromu), RAbs(aeromu)) >>
                  IN OverPatches(t, d)
 
+(* a panel description pd (stack instead of F) completed with the laminate matrix, its scale and thickness *)
+CompleteDef(pd) ==
+    LET lam == ABDE(pd.stack, pd.off)
+        sc  == ABDEScale(pd.stack, pd.off)
+    IN [model |-> pd.model, a |-> pd.a, b |-> pd.b, r |-> pd.r, sina |-> pd.sina, cosa |-> pd.cosa,
+        m |-> pd.m, n |-> pd.n, fl |-> pd.fl, y1 |-> pd.y1, y2 |-> pd.y2, mu |-> pd.mu,
+        off |-> pd.off, Ncte |-> pd.Ncte,
+        F |-> ABD6(lam), Fs |-> ABD6(sc), h |-> Thickness(pd.stack)]
+
 (* placement inside a larger matrix: size x size with the block at (row0, col0), zeros elsewhere *)
 Place(M, size, row0, col0) ==
     Fn([r \in 1..size |-> Fn([c \in 1..size |->
